@@ -97,11 +97,23 @@ def run(ctx):
                     ctx.violation("C12:tile_for_point:containment-deep", "interior point (%d, %d)/2^%d [%s] depth %d: returned %s, the cell holding it is %s" % (i, j, RR, csname, d, pos, exp), {"cs": csname, "point": (i, j, RR)})
                 prev = pos
         # ---- (c) the fractional pixel
-        for _ in range(60 if q else 900):
+        for _ in range(90 if q else 1200):
             d = ctx.rng.choice([0, 1, 1, 2, 3, 4, 6, 8])
             sub = ctx.rng.choice([0, 1, 3])                      # pixel centres exactly, or sub-pixel offsets
             RR = d + 9 + sub
             i, j = 2 * ctx.rng.randrange(2 ** (RR - 1)) + 1, 2 * ctx.rng.randrange(2 ** (RR - 1)) + 1
+            if ctx.rng.random() < 0.6:
+                # bias towards the borders of the tile's pixel grid (rows / columns 0-4 and 251-255), where stamp
+                # clipping and neighbouring-tile effects live
+                def edge(coord):
+                    unit = 1 << (sub + 1)                       # lattice units per pixel at refinement RR
+                    tile0 = (coord // (256 * unit)) * 256 * unit
+                    px = ctx.rng.choice([0, 1, 2, 3, 4, 251, 252, 253, 254, 255])
+                    return tile0 + px * unit + (2 * ctx.rng.randrange(unit // 2) + 1 if unit > 1 else 1)
+                if ctx.rng.random() < 0.7:
+                    i = edge(i)
+                if ctx.rng.random() < 0.7:
+                    j = edge(j)
             v = psi.vec(i, j, RR)
             lon, lat = map(float, lattice.vec_to_lonlat(v))
             if abs(lat) > np.pi / 2 - np.radians(1.0):
